@@ -95,7 +95,7 @@ func ruleC12_2(c *Ctx, r *Rep) {
 		r.Check("C12.2", "C12.2:exists-check@"+sp.fn, pos, ok && okRet, "live row with the same name → ErrExists", "create does not check for a live row of the same name (name =, deleted_at IS NULL → ErrExists)")
 		// duplicate-key on save -> ErrExists
 		okDup := false
-		for _, ret := range returnsOf(fn) {
+		for _, ret := range effReturns(c, fn, 0) {
 			if isGlobalLoad(retLast(ret), "ErrExists") {
 				if condHas(edgeConds(ret.Block()), true, func(v ssa.Value) bool { return sources(v)["call:isSqlDuplicateKeyError"] }) {
 					okDup = true
@@ -104,7 +104,7 @@ func ruleC12_2(c *Ctx, r *Rep) {
 		}
 		r.Check("C12.2", "C12.2:duplicate-key@"+sp.fn, fn.Pos(), okDup, "unique violation on save → ErrExists", "a unique-key violation on save (two creates racing) is not mapped to ErrExists: the loser gets Unknown instead of AlreadyExists")
 		// ... and nothing classifies the save error before that test in a way a unique violation can satisfy
-		for _, ret := range returnsOf(fn) {
+		for _, ret := range effReturns(c, fn, 0) {
 			if !isGlobalLoad(retLast(ret), "ErrExists") {
 				continue
 			}
@@ -1675,4 +1675,28 @@ func ruleC15_4(c *Ctx, r *Rep) {
 		}
 		r.Check("C15.4", "C15.4:loop-keeps-waking@"+k, fn.Pos(), ok, "periodic ticker (or timer re-armed on every path)", why)
 	}
+}
+
+// effReturns: the returns of fn, and — where fn returns the result of a private helper (`return createSaveError(err)`)
+// — the helper's returns as well (they decide what fn answers).
+func effReturns(c *Ctx, fn *ssa.Function, depth int) []*ssa.Return {
+	out := returnsOf(fn)
+	if depth > 2 {
+		return out
+	}
+	for _, ret := range returnsOf(fn) {
+		if len(ret.Results) == 0 {
+			continue
+		}
+		call, ok := retLast(ret).(*ssa.Call)
+		if !ok {
+			continue
+		}
+		h := call.Call.StaticCallee()
+		if h == nil || len(h.Blocks) == 0 || h.Object() == nil || h.Object().Exported() || !c.inModule(h) || c.EntShape().isGenerated(h) {
+			continue
+		}
+		out = append(out, effReturns(c, h, depth+1)...)
+	}
+	return out
 }
